@@ -74,6 +74,9 @@ def main(run):
         base.update(conv(typ, 17, sc) if typ != "int" else 17)      # the user keeps using the base tracker object: must not matter
         ref = RefMulti(dyn, Q(alpha) if dyn else None)
         n = rnd.randrange(1, 61 if run.tier == "thorough" else 31)
+        if h % 97 == 13:
+            n = 400          # a few long histories (counters beyond 256)
+            mode = ["random", "all-zero", "cancel-late", "zero-sum-pairs", "single-key"][(h // 97) % 5]
         seen_keys = []
         changed = False
         hist = []
@@ -94,7 +97,17 @@ def main(run):
                 upd = {keys[0]: v} if t < 2 else {keys[0]: 0, keys[1]: 0}
             hist.append(upd)
             real = {k: conv(typ, v, sc) for k, v in upd.items()}
-            mt.update(dict(real))
+            ctype = rnd.choice(["dict", "dict", "OrderedDict", "defaultdict-nonzero"])
+            if ctype == "OrderedDict":
+                import collections
+                mt.update(collections.OrderedDict(real))
+            elif ctype == "defaultdict-nonzero":      # a dict subclass whose __missing__ would fabricate a non-zero value
+                import collections
+                dd = collections.defaultdict(lambda: conv(typ, 7, sc) if typ != "int" else 7)
+                dd.update(real)
+                mt.update(dd)
+            else:
+                mt.update(dict(real))
             # twin: same values for keys[0], different history for the others
             twin.update({k: (v if k == keys[0] else conv(typ, 3, sc)) for k, v in real.items()})
             ref.add({k: Q(tofrac(v)) for k, v in real.items()})
